@@ -29,6 +29,48 @@ def cond_edges(b):
             e = e[2]
             tsucc, fsucc = fsucc, tsucc
         out.append((sb, e, tsucc, fsucc))
+    for sb, arms in discr_edges(b):
+        ge = [s2 for s2, r in arms if r[1] == "Ge"]
+        lt = [s2 for s2, r in arms if r[1] == "Lt"]
+        if len(arms) == 2 and ge and lt:
+            out.append((sb, [r for s2, r in arms if r[1] == "Ge"][0], ge[0], lt[0]))
+    return out
+
+
+def discr_edges(b):
+    """multi-way branches whose arms carry an order relation between two values:
+         match a.cmp(&b) { Less / Equal / Greater }           -> a < b / a == b / a > b
+         a.checked_sub(b)? , match a.checked_sub(b) {Some/None} -> a >= b on the success arm, a < b on the other
+       -> list of (switch block, [(successor, relation as a boolean expression)])"""
+    out = []
+    for sb, t in b.iter_switches():
+        e, m = b.switch_cond(sb)
+        if e[0] != "discr":
+            continue
+        x = e[1]
+        arms = []
+        via_branch = False
+        if is_call(x, "branch") and len(x[3]) == 1:
+            x, via_branch = x[3][0], True
+        if is_call(x, "cmp") and len(x[3]) == 2:
+            a, c = x[3]
+            for s2, vals in m.items():
+                if vals == ["255"]:
+                    arms.append((s2, ("bin", "Lt", a, c)))
+                elif vals == ["0"]:
+                    arms.append((s2, ("bin", "Eq", a, c)))
+                elif vals == ["1"]:
+                    arms.append((s2, ("bin", "Gt", a, c)))
+        elif is_call(x, ("checked_sub", "checked_add")) and len(x[3]) == 2 and x[1] == "checked_sub":
+            a, c = x[3]
+            some_val = "0" if via_branch else "1"       # ControlFlow::Continue = 0 ; Option::Some = 1
+            for s2, vals in m.items():
+                if vals == [some_val]:
+                    arms.append((s2, ("bin", "Ge", a, c)))
+                elif vals == ["1" if via_branch else "0"]:
+                    arms.append((s2, ("bin", "Lt", a, c)))
+        if arms:
+            out.append((sb, arms))
     return out
 
 
@@ -53,6 +95,11 @@ def edges_dominating(b, loc_block):
             out.append((sb, cond, True, ts, fs))
         elif b.edge_dominates((sb, fs), loc_block) and sb != loc_block:
             out.append((sb, cond, False, fs, ts))
+    for sb, arms in discr_edges(b):
+        for s2, rel in arms:
+            if sb != loc_block and b.edge_dominates((sb, s2), loc_block):
+                others = [o for o, _ in arms if o != s2] or [s2]
+                out.append((sb, rel, True, s2, others[0]))
     return out
 
 
@@ -292,6 +339,27 @@ def _bvd_growth_body(crate, b, res):
                         for op, x, y in relations_on_edge(cond, taken):
                             if op == "Lt" and x == L and y == cur:
                                 ok = "shrinks (guarded by %s < current length)" % show(L)
+                if ok is None:
+                    # path form (`match new.cmp(&len) { Less => .., Greater => { reserve(..) .. } }` with the store after the
+                    # join): every path to the store goes through a sufficient reserve() or through a branch on which the
+                    # new length is not larger than the current one
+                    rblocks = set()
+                    for r in evs:
+                        if r.kind == "mcall" and r.name == "reserve" and r.args[0] == e.obj:
+                            k = r.args[1]
+                            if (is_bin(L, "Add") and L[2] == cur and L[3] == k) or (is_bin(k, "Sub") and k[2] == L and k[3] == cur):
+                                rblocks.add(r.loc[0])
+                    shrink_edges = set()
+                    for sb, cond, ts, fs in cond_edges(b):
+                        for taken, succ in ((True, ts), (False, fs)):
+                            if any(op in ("Lt", "Le", "Eq") and x == L and y == cur for op, x, y in relations_on_edge(cond, taken)):
+                                shrink_edges.add((sb, succ))
+                    for sb, arms in discr_edges(b):
+                        for succ, rel in arms:
+                            if any(op in ("Lt", "Le", "Eq") and x == L and y == cur for op, x, y in relations_on_edge(rel, True)):
+                                shrink_edges.add((sb, succ))
+                    if (rblocks or shrink_edges) and e.loc[0] not in b.reach_avoiding([0], avoid_blocks=rblocks, avoid_edges=shrink_edges):
+                        ok = "every path to the store passes reserve(%s - len) or a branch with %s <= len" % (show(L), show(L))
                 if ok is None and b.name == "read":
                     ok_l = _read_alloc_lemma(b, e)
                     if ok_l:
